@@ -119,8 +119,11 @@ theorem validateSiacoins1_ok {ms : Mid} {t : Txn1} (h : validateSiacoins ms t = 
           · cases hh
           · split at hh
             · cases hh
-            · rw [hp]; simp only []
-              exact ⟨(addC_ok.mp hh).2, by simpa using hsp, p, rfl⟩) _ _ _ hin
+            · split at hh
+              · cases hh
+                rw [hp]; simp only []
+                exact ⟨by first | rfl | trivial, by simpa using hsp, p, rfl⟩
+              · cases hh) _ _ _ hin
   refine ⟨e0.2, ?_⟩
   have e0' := e0.1
   unfold Txn1.payouts
